@@ -3,6 +3,7 @@ package c08
 import (
 	"fmt"
 	"math/rand"
+	"os"
 	"reflect"
 	"sort"
 	"strconv"
@@ -11,6 +12,7 @@ import (
 	"time"
 
 	"github.com/redis/rueidis"
+	"verifh/drv"
 	"verifh/mon"
 )
 
@@ -829,6 +831,9 @@ func (g *graph) absorb(rng *rand.Rand, r *recipe) (*recipe, *recipe) {
 
 // C08: two cacheable commands with different argv are never cached under the same entry.
 func TestC08(t *testing.T) {
+	if drv.IsChild() {
+		t.Skip("parent only")
+	}
 	run := mon.Start(t, "C08", "exploration",
 		"pairs of distinct cacheable commands built through every builder path that ends in Cache() (reflection over the Builder; arguments from small adversarial alphabets: re-split neighbours, numeric re-split, "+
 			"empty values, merged/split variadic lists, one value replaced, keys that absorb <key><CMDNAME>…, read-only scripts with one key, MGET/JSON.MGET per key); each pair is compared at the identity level "+
@@ -836,7 +841,18 @@ func TestC08(t *testing.T) {
 			"a case is one pair, distinct by the two argv, non-trivial when the argv concatenate to the same text or have the same command name and length")
 	defer run.Finish()
 	run.Assume("the key of a cacheable command is argv[1], or argv[3] for EVAL_RO/EVALSHA_RO/FCALL_RO with numkeys=1 (used only to classify collisions, not to detect them)",
-		"one key of MGET / JSON.MGET stands for the command GET key / JSON.GET key path")
+		"one key of MGET / JSON.MGET stands for the command GET key / JSON.GET key path",
+		"dynamic part: the server's reply to a command is what fakeredis answers to the same argv on the driver's own connection (the data is never written after setup); a death of the child process is attributed to the history it was running")
+	partAbandon(t, run)
+	if run.Observed("dyn_process_deaths") == 0 { // histories cut short by a process death are reported as violations; the counters of the others say nothing then
+		run.Require("dyn_histories_builtin", "dyn_histories_adapter", "dyn_hits_checked_afterwards", "dyn_hits_checked_concurrent", "dyn_abandoned_mget_late_exec_reply_with_pending_reads")
+	}
+	if os.Getenv("VERIF_C08_ONLY") == "dynamic" { // development aid: registered commands never set it
+		run.Sample("dynamic part only")
+		run.Case("dynamic-only-a", true)
+		run.Case("dynamic-only-b", true)
+		return
+	}
 	g := buildGraph()
 	cacheTypes := 0
 	for _, n := range g.nodes {
